@@ -180,7 +180,9 @@ where
                 Poll::Pending => (),
             }
 
-            if server.is_some() {
+            // Only take the next reply once the previous one has been handed to its
+            // requestor, otherwise a reply buffered behind a slow sink would be overwritten.
+            if server.is_some() && buffered_rep.is_none() {
                 let st = &mut server.as_mut().as_pin_mut().unwrap().1;
 
                 match st.poll_next_unpin(cx) {
@@ -204,7 +206,7 @@ where
                         server_pending = true;
                     }
                 }
-            } else {
+            } else if server.is_none() {
                 // No replier is bound, so there is nothing to wait for on this side. A new
                 // replier arrives via `handle`, which has been polled to pending above.
                 server_pending = true;
